@@ -1,6 +1,8 @@
 import DFV.Lemmas.C16Examples
 import DFV.Lemmas.C16Cells
 import DFV.Lemmas.C16Fix
+import DFV.Lemmas.C16Layout
+import DFV.Lemmas.C16More
 /-!
 # C16 — VTK output puts each value in the grid cell a VTK reader finds at that position
 
@@ -11,7 +13,9 @@ all labels that meet the stated hypotheses, all probe points.
 
 `WF f nx ny nz` is "a 3-d field as the constructor leaves it" (mesh invariant, array and mask
 of the mesh's shape, labels present, distinct and different from the fixed array names
-`norm` / `field` / `valid` when the field has more than one component).
+`norm` / `field` / `valid` when the field has more than one component).  `WFc f nx ny nz`
+(round 6) drops the last condition: labels present and distinct, nothing else — the theorems
+stated with it hold for ANY label set and make the label findings exact conditions.
 -/
 namespace DFV.C16
 open DFV DFV.Mesh
@@ -310,7 +314,9 @@ theorem file_roundtrip_exact (f : Fld) (nx ny nz : Nat) (h : WF f nx ny nz) (rep
     · exact ⟨.bin, by decide, by decide⟩
   obtain ⟨r, hr1, hr2⟩ := hr
   refine ⟨_, f', by unfold toFile; rw [hr1, hg], ?_, h2, h3, h4, h8⟩
-  simp only [fromFile, readVtk, if_neg hr2]
+  simp only [fromFile]
+  rw [readVtk_writtenGrid, if_neg hr2]
+  simp only [readVtk]
   have : (normVArr f :: (comps f ++ [fieldVArr f, validVArr f])).isEmpty = false := rfl
   simp only [this]
   exact h1
@@ -336,7 +342,9 @@ theorem file_roundtrip_text_exact (f : Fld) (nx ny nz : Nat) (h : WF f nx ny nz)
   obtain ⟨f', h1, h2, h3, h4, _, _, _, h8⟩ := fromCells_toVtk f nx ny nz h _ hg _ m1 hsub
   have hr : repOf "txt" = .ok .txt := by decide
   refine ⟨_, f', by unfold toFile; rw [hr, hg], rfl, ?_, h2, h3, h4, h8⟩
-  simp only [fromFile, readVtk, if_true]
+  simp only [fromFile]
+  rw [readVtk_writtenGrid, if_pos rfl]
+  simp only [readVtk]
   rw [mapGrid_fixed rnd _ hc ha]
   have : (normVArr f :: (comps f ++ [fieldVArr f, validVArr f])).isEmpty = false := rfl
   simp only [this]
@@ -361,7 +369,9 @@ theorem file_roundtrip_text (f : Fld) (nx ny nz : Nat) (h : WF f nx ny nz) (save
   obtain ⟨f', h1, h2, h3, h4, h5⟩ := fromCells_rounded f nx ny nz h _ hg rnd hlt _ m1 hsub
   have hr : repOf "txt" = .ok .txt := by decide
   refine ⟨_, f', by unfold toFile; rw [hr, hg], ?_, h2, h3, h4, h5⟩
-  simp only [fromFile, readVtk, if_true]
+  simp only [fromFile]
+  rw [readVtk_writtenGrid, if_pos rfl]
+  simp only [readVtk]
   have : (mapGrid rnd { dims := [nx + 1, ny + 1, nz + 1], coords := tab 3 fun a => f.mesh.vertices.getD a [],
                         cell := normVArr f :: (comps f ++ [fieldVArr f, validVArr f]) }).cell.isEmpty = false := by
     rw [mapGrid_cell]; rfl
@@ -1126,5 +1136,792 @@ theorem text_sidecar_rejected_witness :
       some ([5/8, 3, 1], [7, 1/2]) ∧
     (((toFile exThird "txt" true rnd8).bind fromFile).toOption.map fun f => f.mesh.subs.map fun p => p.1) = none := by
   refine ⟨?_, ?_, ?_⟩ <;> decide +kernel
+
+/-! ## round 6: acceptance as equivalences, the legacy writer's layout, any labels (D61 / D62
+exactly), the text form and stale side-cars exactly (D63 / D64), malformed legacy files -/
+
+/-- **`to_vtk` is accepted exactly for** three-dimensional fields that are labelled when they have
+more than one component; a field that is not 3-d is refused with `RuntimeError` (before the
+labels are looked at), an unlabelled 3-d vector field with the labels error — whatever the
+number of components, the values, the mask, the subregions. -/
+theorem to_vtk_accepted_iff (f : Fld) :
+    ((∃ g, toVtk f = .ok g) ↔ (f.mesh.region.ndim = 3 ∧ ¬ (1 < f.nvdim ∧ f.vdims = none))) ∧
+    (f.mesh.region.ndim ≠ 3 → toVtk f = .error .runtime) ∧
+    (f.mesh.region.ndim = 3 → 1 < f.nvdim → f.vdims = none → toVtk f = .error .value) := by
+  unfold toVtk
+  by_cases h3 : f.mesh.region.ndim = 3
+  · by_cases hl : 1 < f.nvdim ∧ f.vdims = none
+    · rw [if_neg (not_not.mpr h3), if_pos hl]
+      refine ⟨⟨fun ⟨_, h⟩ => (by cases h), fun h => absurd hl h.2⟩, fun h => absurd h3 h, fun _ _ _ => rfl⟩
+    · rw [if_neg (not_not.mpr h3), if_neg hl]
+      exact ⟨⟨fun _ => ⟨h3, hl⟩, fun _ => ⟨_, rfl⟩⟩, fun h => absurd h3 h, fun _ a b => absurd ⟨a, b⟩ hl⟩
+  · rw [if_pos h3]
+    exact ⟨⟨fun ⟨_, h⟩ => (by cases h), fun h => absurd h.1 h3⟩, fun _ => rfl, fun h => absurd h h3⟩
+
+/-- **The reader depends on the file only through three things**: the LAST array called `field`,
+the LAST array called `valid`, and the names of the other arrays except `norm` in file order
+(besides dimensions and coordinates).  Two grids that agree on these read the same — whatever
+the order of the arrays, whatever else they hold. -/
+theorem reader_depends_on_parts (g g' : Grid) (sc : Option (List (String × Region)))
+    (hd : g'.dims = g.dims) (hc : g'.coords = g.coords)
+    (hf : lastNamed "field" g'.cell = lastNamed "field" g.cell)
+    (hv : lastNamed "valid" g'.cell = lastNamed "valid" g.cell)
+    (hl : labelNames g'.cell = labelNames g.cell) : fromCells g' sc = fromCells g sc := by
+  rw [fromCells_eq, fromCells_eq, hf, hv, hl]
+  have e1 : g'.n = g.n := by unfold Grid.n; rw [hd]
+  have e2 : g'.p1 = g.p1 := by unfold Grid.p1 Grid.ax; rw [hc]
+  have e3 : g'.p2 = g.p2 := by unfold Grid.p2 Grid.ax; rw [hc]
+  rw [e1, e2, e3]
+
+/-- **The cell-data reader accepts exactly the well-formed files** (refused ⇔ malformed), for any
+grid and any side-car: there is an array called `field` with at least one component and one tuple
+per cell; the array called `valid`, if any, has one entry per cell; there are three dimensions,
+each at least 2 points; on no axis the first and the last coordinate coincide; the names of the
+label arrays, when they are as many as components, are distinct; and the side-car (if any) loads
+on the mesh built from bounds and dimensions. -/
+theorem reader_accepts_iff (g : Grid) (sc : Option (List (String × Region))) :
+    (∃ f', fromCells g sc = .ok f') ↔
+      ∃ a, lastNamed "field" g.cell = some a ∧ 1 ≤ a.ncomp ∧ a.vals.length = natProd g.n * a.ncomp ∧
+        (∀ v, lastNamed "valid" g.cell = some v → v.vals.length = natProd g.n) ∧
+        g.dims.length = 3 ∧ (∀ k ∈ g.dims, 2 ≤ k) ∧
+        (∀ ax, ax < 3 → (g.ax ax).getD 0 0 ≠ (g.ax ax).getD ((g.ax ax).length - 1) 0) ∧
+        ((labelNames g.cell).length = a.ncomp → hasDup (labelNames g.cell) = false) ∧
+        ∃ m, loadSubs (boundsMesh g.p1 g.p2 g.n) sc = .ok m := by
+  rw [fromCells_eq, fromParts_ok_iff]
+  obtain ⟨hm1, hm2⟩ := meshOf_ok_iff3 g.p1 g.p2 g.n (by simp [Grid.p1]) (by simp [Grid.p2])
+  have hgeo : ((∀ a, a < 3 → g.p1.getD a 0 ≠ g.p2.getD a 0) ∧ g.n.length = 3 ∧ ∀ k ∈ g.n, k ≠ 0) ↔
+      (g.dims.length = 3 ∧ (∀ k ∈ g.dims, 2 ≤ k) ∧
+        ∀ ax, ax < 3 → (g.ax ax).getD 0 0 ≠ (g.ax ax).getD ((g.ax ax).length - 1) 0) := by
+    have e1 : ∀ a, a < 3 → g.p1.getD a 0 = (g.ax a).getD 0 0 := fun a ha => by
+      unfold Grid.p1; rw [getD_tab _ _ _ _ ha]
+    have e2 : ∀ a, a < 3 → g.p2.getD a 0 = (g.ax a).getD ((g.ax a).length - 1) 0 := fun a ha => by
+      unfold Grid.p2; rw [getD_tab _ _ _ _ ha]
+    have e3 : g.n.length = g.dims.length := by simp [Grid.n]
+    have e4 : (∀ k ∈ g.n, k ≠ 0) ↔ ∀ k ∈ g.dims, 2 ≤ k := by
+      unfold Grid.n
+      constructor
+      · intro h k hk
+        have := h (k - 1) (List.mem_map.mpr ⟨k, hk, rfl⟩)
+        omega
+      · intro h k hk
+        obtain ⟨q, hq, rfl⟩ := List.mem_map.mp hk
+        have := h q hq
+        omega
+    rw [e3, e4]
+    constructor
+    · rintro ⟨a, b, c⟩
+      exact ⟨b, c, fun ax hax => by rw [← e1 ax hax, ← e2 ax hax]; exact a ax hax⟩
+    · rintro ⟨b, c, a⟩
+      exact ⟨fun ax hax => by rw [e1 ax hax, e2 ax hax]; exact a ax hax, b, c⟩
+  constructor
+  · rintro ⟨a, ha, h1, h2, ⟨m0, m, hm0, hm⟩, h3, h4⟩
+    have hcond := hgeo.mp (hm1.mp ⟨m0, hm0⟩)
+    have := hm2 m0 hm0
+    subst this
+    exact ⟨a, ha, h3, h1, h2, hcond.1, hcond.2.1, hcond.2.2, h4, m, hm⟩
+  · rintro ⟨a, ha, h3, h1, h2, c1, c2, c3, h4, m, hm⟩
+    obtain ⟨m0, hm0⟩ := hm1.mpr (hgeo.mpr ⟨c1, c2, c3⟩)
+    have := hm2 m0 hm0
+    subst this
+    exact ⟨a, ha, h1, h2, ⟨_, m, hm0, hm⟩, h3, h4⟩
+
+/-- the acceptance conditions are met by a grid with reordered arrays, an extra array and two
+arrays called `field` (the last one counts) -/
+example : ((fromCells (Grid.mk [3, 2, 2] [[0, 1, 2], [0, 1], [5, 7]]
+      [⟨"field", 1, false, [9, 9]⟩, ⟨"q", 1, false, [0, 0]⟩, ⟨"field", 2, false, [1, 2, 3, 4]⟩,
+       ⟨"norm", 1, false, [0, 0]⟩, ⟨"p", 1, false, [0, 0]⟩]) none).toOption.map fun f => (f.data.get [1, 0, 0], f.vdims)) =
+    some ([3, 4], some ["q", "p"]) := by decide +kernel
+
+/-- **The side-car loads exactly when every entry passes the subregion setter's test** on the
+mesh it is loaded on (entries that are regions: ordered corners, matching lengths): one failing
+entry refuses the whole read, nothing is dropped silently. -/
+theorem sidecar_loads_iff (m : Mesh) (l : List (String × Region)) (hinv : ∀ p ∈ l, p.2.Inv) :
+    (∃ m1, loadSubs m (some l) = .ok m1) ↔ ∀ p ∈ l, T.subOk m p.2 = true :=
+  loadSubs_ok_iff m l hinv
+
+/-! ### what the code hands to the writers, and what the writers make of it -/
+
+/-- **Every array, value by value** (array level, every shape, every number of components).  In
+the grid of a well-formed field the flat buffer of `field` holds at position `q` component
+`q mod nvdim` of mesh cell `unflatF n (q div nvdim)` (cells x-fastest, components of a cell
+adjacent); `norm` holds at `t` the squared length of cell `unflatF n t`; `valid` (integer-typed)
+1 or 0; and the scalar array named after label number `c` holds at `t` component `c` of that cell. -/
+theorem cell_arrays_explicit (f : Fld) (nx ny nz : Nat) (h : WF f nx ny nz) (g : Grid) (hg : toVtk f = .ok g) :
+    (∃ a, g.arr "field" = some a ∧ a.ncomp = f.nvdim ∧ a.int = false ∧
+      a.vals = tab (natProd [nx, ny, nz] * f.nvdim) fun q =>
+        (f.data.get (unflatF [nx, ny, nz] (q / f.nvdim))).getD (q % f.nvdim) 0) ∧
+    (∃ a, g.arr "norm" = some a ∧ a.ncomp = 1 ∧ a.int = false ∧
+      a.vals = tab (natProd [nx, ny, nz]) fun t => sumSq (f.data.get (unflatF [nx, ny, nz] t)) f.nvdim) ∧
+    (∃ a, g.arr "valid" = some a ∧ a.ncomp = 1 ∧ a.int = true ∧
+      a.vals = tab (natProd [nx, ny, nz]) fun t => if f.valid.get (unflatF [nx, ny, nz] t) then 1 else 0) ∧
+    (1 < f.nvdim → ∀ vs, f.vdims = some vs → ∀ c, c < vs.length →
+      ∃ a, g.arr (vs.getD c "") = some a ∧ a.ncomp = 1 ∧ a.int = false ∧
+        a.vals = tab (natProd [nx, ny, nz]) fun t => (f.data.get (unflatF [nx, ny, nz] t)).getD c 0) := by
+  refine ⟨⟨_, arr_field f nx ny nz h g hg, rfl, rfl, fieldVArr_vals f nx ny nz h.dshape⟩,
+    ⟨_, arr_norm f nx ny nz h g hg, rfl, rfl, normVArr_vals f nx ny nz h.dshape⟩,
+    ⟨_, arr_valid f nx ny nz h g hg, rfl, rfl, validVArr_vals f nx ny nz h.vshape⟩, ?_⟩
+  intro hnv vs hvs c hc
+  obtain ⟨vs', hvs', _, hd, _⟩ := h.labels hnv
+  rw [hvs] at hvs'; cases hvs'
+  have hl : vs.getD c "" ∈ vs := by
+    rw [List.getD_eq_getElem?_getD, List.getElem?_eq_getElem hc]; simp
+  refine ⟨_, arr_comp f nx ny nz h g hg hnv vs hvs _ hl, rfl, rfl, ?_⟩
+  rw [compVArr_vals f nx ny nz h.dshape vs, indexOf_getD vs hd c hc]
+  rfl
+
+/-- **The legacy (`bin` / `bin8` / `txt`) file of a well-formed field, section by section.**
+With three components the file has `VECTORS field` followed by a `FIELD` block holding `norm`,
+one scalar per label, `valid`; with one component `SCALARS field` (+ lookup table) followed by a
+`FIELD` block with `norm`, `valid`; otherwise a single `FIELD` block with `norm`, the label
+scalars, `field`, `valid`.  A VTK reader returns the arrays in this file order: `field` first
+exactly when the field has one or three components. -/
+theorem legacy_file_layout (f : Fld) (nx ny nz : Nat) (h : WF f nx ny nz) (g : Grid) (hg : toVtk f = .ok g) :
+    legacySections (activeAttr f) g.cell =
+      (if f.nvdim = 3 then [.vectors "field", .field ("norm" :: ((f.vdims.getD []) ++ ["valid"]))]
+       else if f.nvdim = 1 then [.scalars "field", .field ["norm", "valid"]]
+       else [.field ("norm" :: ((f.vdims.getD []) ++ ["field", "valid"]))]) ∧
+    (writtenGrid .bin (activeAttr f) id g).cell.map (fun a => a.name) =
+      (if f.nvdim = 3 then "field" :: "norm" :: ((f.vdims.getD []) ++ ["valid"])
+       else if f.nvdim = 1 then ["field", "norm", "valid"]
+       else "norm" :: ((f.vdims.getD []) ++ ["field", "valid"])) ∧
+    (writtenGrid .xml (activeAttr f) id g).cell = g.cell := by
+  rw [toVtk_ok f nx ny nz h] at hg
+  injection hg with hg
+  subst hg
+  refine ⟨legacySections_wf f nx ny nz h, ?_, rfl⟩
+  simp only [writtenGrid]
+  rw [legacyOrder_wf f nx ny nz h]
+  have hn := comps_names_list f
+  by_cases h3 : f.nvdim = 3
+  · have hnv : 1 < f.nvdim := by omega
+    rw [if_pos hnv] at hn
+    rw [if_pos (Or.inl h3), if_pos h3]
+    simp only [List.map_cons, List.map_append, List.map_nil, hn]
+    rfl
+  · by_cases h1 : f.nvdim = 1
+    · have hnv : ¬ 1 < f.nvdim := by omega
+      rw [if_neg hnv] at hn
+      rw [if_pos (Or.inr h1), if_neg h3, if_pos h1]
+      simp only [List.map_cons, List.map_append, List.map_nil, hn]
+      rfl
+    · have hnv : 1 < f.nvdim := by have := h.nv; omega
+      rw [if_pos hnv] at hn
+      rw [if_neg (by omega), if_neg h3, if_neg h1]
+      simp only [List.map_cons, List.map_append, List.map_nil, hn]
+      rfl
+
+/-- the layout of the example (two components: one `FIELD` block, order kept) and of its
+three-component and one-component variants -/
+example : (toVtk exField).toOption.map (fun g => (legacySections (activeAttr exField) g.cell,
+      (writtenGrid .bin (activeAttr exField) id g).cell.map fun a => a.name)) =
+    some ([.field ["norm", "a", "b", "field", "valid"]], ["norm", "a", "b", "field", "valid"]) := by decide +kernel
+example : (toVtk { exField with nvdim := 1 }).toOption.map (fun g => (legacySections (activeAttr { exField with nvdim := 1 }) g.cell,
+      (writtenGrid .txt (activeAttr { exField with nvdim := 1 }) id g).cell.map fun a => a.name)) =
+    some ([.scalars "field", .field ["norm", "valid"]], ["field", "norm", "valid"]) := by decide +kernel
+
+/-- **The legacy writer's reordering never matters to the reader**: for any grid (not only those
+`to_vtk` builds), any rounding, any side-car, reading the grid a VTK reader returns for the
+written file gives what reading the grid itself (value-wise rounded, in the text form) gives. -/
+theorem reader_ignores_file_order (f : Fld) (r : Rep) (rnd : Rat → Rat) (g : Grid) (lines : List LLine)
+    (sc : Option (List (String × Region))) :
+    readVtk (writtenGrid r (activeAttr f) rnd g) lines sc = readVtk (if r = .txt then mapGrid rnd g else g) lines sc :=
+  readVtk_writtenGrid f r rnd g lines sc
+
+/-! ### cell positions -/
+
+/-- **VTK cell `t` is mesh cell `unflatF n t`, box and content** (all cell counts, anisotropic
+cells, any offset).  For every cell id `t < nx·ny·nz` with `(i₀, i₁, i₂) = unflatF n t`: on every
+axis `a` the two grid coordinates that bound VTK cell `t` — entries `i_a` and `i_a + 1` of the
+coordinate array — are the faces `pmin + i_a·cell` and `pmin + (i_a+1)·cell` of that mesh cell,
+their midpoint is the mesh's cell centre, and tuple `t` of `field` / `valid` is the cell's vector /
+flag. -/
+theorem vtk_cell_is_mesh_cell (f : Fld) (nx ny nz : Nat) (h : WF f nx ny nz) (g : Grid) (hg : toVtk f = .ok g)
+    (t : Nat) (ht : t < natProd [nx, ny, nz]) :
+    (∀ a, a < 3 →
+      (unflatF [nx, ny, nz] t).getD a 0 < f.mesh.nAt a ∧
+      (g.ax a).getD ((unflatF [nx, ny, nz] t).getD a 0) 0 =
+        f.mesh.region.lo a + ((unflatF [nx, ny, nz] t).getD a 0 : Rat) * f.mesh.cellAt a ∧
+      (g.ax a).getD ((unflatF [nx, ny, nz] t).getD a 0 + 1) 0 =
+        f.mesh.region.lo a + (((unflatF [nx, ny, nz] t).getD a 0 : Rat) + 1) * f.mesh.cellAt a ∧
+      ((g.ax a).getD ((unflatF [nx, ny, nz] t).getD a 0) 0 + (g.ax a).getD ((unflatF [nx, ny, nz] t).getD a 0 + 1) 0) / 2 =
+        f.mesh.centreAx a ((unflatF [nx, ny, nz] t).getD a 0 : Int)) ∧
+    (∃ a, g.arr "field" = some a ∧ a.tuple t = tab f.nvdim fun c => (f.data.get (unflatF [nx, ny, nz] t)).getD c 0) ∧
+    (∃ a, g.arr "valid" = some a ∧ a.tuple t = [if f.valid.get (unflatF [nx, ny, nz] t) then 1 else 0]) := by
+  obtain ⟨hx, hy, hz⟩ := wf_pos f nx ny nz h
+  obtain ⟨hir, _, _, hf, _, hv⟩ := cell_id_is_mesh_cell f nx ny nz h g hg t ht
+  obtain ⟨_, _, _, _, hn0, hn1, hn2⟩ := mesh_axes f nx ny nz h
+  refine ⟨?_, hf, hv⟩
+  intro a ha
+  obtain ⟨i, j, k, e, hi, hj, hk⟩ := inRange3_cases nx ny nz _ hir
+  have hlt : (unflatF [nx, ny, nz] t).getD a 0 < f.mesh.nAt a := by
+    rw [e]
+    have : a = 0 ∨ a = 1 ∨ a = 2 := by omega
+    rcases this with rfl | rfl | rfl
+    · rw [hn0]; simpa using hi
+    · rw [hn1]; simpa using hj
+    · rw [hn2]; simpa using hk
+  obtain ⟨_, hco⟩ := grid_coordinates f nx ny nz h g hg a ha
+  have c1 := hco _ (le_of_lt hlt)
+  have c2 := hco ((unflatF [nx, ny, nz] t).getD a 0 + 1) (by omega)
+  refine ⟨hlt, c1, by rw [c2]; push_cast; ring, ?_⟩
+  rw [c1, c2]
+  unfold Mesh.centreAx
+  push_cast
+  ring
+
+/-- the example: VTK cell 3 is mesh cell (1, 0, 1) -/
+example : unflatF [2, 1, 2] 3 = [1, 0, 1] := by decide
+
+/-! ### any labels: D61 and D62 as exact conditions -/
+
+/-- **`to_vtk` for any distinct labels.**  Nothing about the labels beyond what every field
+satisfies (as many as components, distinct) is needed for the conversion to succeed and for the
+`field` and `valid` arrays to be right: `GetArray("field")` is always the vector array (also when
+a component is called `field` — its scalar array is then replaced, finding D61) and
+`GetArray("valid")` the flags, so the lookup theorems for values and validity hold for every label set. -/
+theorem grid_any_labels (f : Fld) (nx ny nz : Nat) (h : WFc f nx ny nz) :
+    ∃ g, toVtk f = .ok g ∧ g.dims = [nx + 1, ny + 1, nz + 1] ∧
+      g.arr "field" = some (fieldVArr f) ∧ g.arr "valid" = some (validVArr f) ∧
+      ∀ idx, inRange [nx, ny, nz] idx = true →
+        (fieldVArr f).tuple (flatF [nx, ny, nz] idx) = (tab f.nvdim fun c => (f.data.get idx).getD c 0) ∧
+        (validVArr f).tuple (flatF [nx, ny, nz] idx) = [if f.valid.get idx then 1 else 0] := by
+  refine ⟨_, toVtk_okc f nx ny nz h, rfl, ?_, ?_, ?_⟩
+  · simp only [Grid.arr]
+    rw [find_eq_lastNamed _ _ (cellData_nodup f)]
+    exact cellData_field f
+  · simp only [Grid.arr]
+    rw [find_eq_lastNamed _ _ (cellData_nodup f)]
+    exact cellData_valid f
+  · intro idx hi
+    exact ⟨field_tuple f nx ny nz h.dshape idx hi, valid_tuple f nx ny nz h.vshape idx hi⟩
+
+/-- **Round trip for any distinct labels** (binary and XML files, no loader hypothesis).  For every
+3-d field as the constructor leaves it — whatever its labels — whose subregions fit its mesh:
+the write and the read succeed; corners, counts, number of components, values, validity and
+(saved) subregions come back exactly; and the labels come back as
+* `None` for a one-component field (its label, if any, is not written: finding D62),
+* the labels themselves when none of them is `field`, `valid` or `norm`,
+* the DEFAULT labels (`x y z` / `v0 v1 …`) otherwise (finding D61). -/
+theorem roundtrip_any_labels (f : Fld) (nx ny nz : Nat) (h : WFc f nx ny nz) (hsub : C14.SubInv f.mesh)
+    (rep : String) (hrep : rep = "xml" ∨ rep = "bin" ∨ rep = "bin8") (save : Bool) (rnd : Rat → Rat) :
+    ∃ v f', toFile f rep save rnd = .ok v ∧ fromFile v = .ok f' ∧
+      f'.mesh.region.pmin = f.mesh.region.pmin ∧ f'.mesh.region.pmax = f.mesh.region.pmax ∧
+      f'.mesh.n = f.mesh.n ∧ f'.nvdim = f.nvdim ∧
+      f'.vdims = (if f.nvdim = 1 then none
+                  else if ∀ l ∈ f.vdims.getD [], isLabelName l = true then f.vdims else Fld.defaultVdims f.nvdim) ∧
+      f'.mesh.subs.map (fun p => (p.1, p.2.pmin, p.2.pmax)) =
+        (if save then f.mesh.subs else []).map (fun p => (p.1, p.2.pmin, p.2.pmax)) ∧
+      ∀ idx, inRange [nx, ny, nz] idx = true →
+        f'.data.get idx = (tab f.nvdim fun c => (f.data.get idx).getD c 0) ∧
+        f'.valid.get idx = f.valid.get idx := by
+  have hw := scalarised_wf f nx ny nz h
+  have hm1 := loadSubs_written (scalarised f) nx ny nz hw hsub save
+  have hmesh : (scalarised f).mesh = f.mesh := rfl
+  rw [hmesh] at hm1
+  obtain ⟨f', h1, h2, h3, h4, _, h6⟩ := fromCells_toVtkc f nx ny nz h _ _ hm1
+  have hr : ∃ r, repOf rep = .ok r ∧ r ≠ .txt := by
+    rcases hrep with rfl | rfl | rfl
+    · exact ⟨.xml, by decide, by decide⟩
+    · exact ⟨.bin, by decide, by decide⟩
+    · exact ⟨.bin, by decide, by decide⟩
+  obtain ⟨r, hr1, hr2⟩ := hr
+  refine ⟨_, f', by unfold toFile; rw [hr1, toVtk_okc f nx ny nz h], ?_, ?_, ?_, ?_, h3, h4, ?_, h6⟩
+  · simp only [fromFile]
+    rw [readVtk_writtenGrid, if_neg hr2]
+    simp only [readVtk, cellData_nonempty]
+    exact h1
+  · rw [h2]; rfl
+  · rw [h2]; rfl
+  · rw [h2, h.n]; rfl
+  · rw [h2]
+    cases save
+    · rfl
+    · simp [List.map_map, Function.comp_def, rebuilt]
+
+/-- **D61 and D62 as one exact condition.**  Under the hypotheses of `roundtrip_any_labels`, the
+labels read back are the labels written **if and only if** a one-component field is unlabelled
+and a field with several components has no component called `field`, `valid` or `norm` (the
+`vdims` setter already refuses `valid` and `norm`, which are attributes of `Field`; so for real
+fields: iff no component is called `field`).  In every other case the labels are lost — and only
+the labels: values, validity, geometry and subregions still come back exactly. -/
+theorem labels_preserved_iff (f : Fld) (nx ny nz : Nat) (h : WFc f nx ny nz) (f' : Fld)
+    (hread : f'.vdims = (if f.nvdim = 1 then none
+                  else if ∀ l ∈ f.vdims.getD [], isLabelName l = true then f.vdims else Fld.defaultVdims f.nvdim)) :
+    f'.vdims = f.vdims ↔
+      ((f.nvdim = 1 → f.vdims = none) ∧ (1 < f.nvdim → ∀ l ∈ f.vdims.getD [], l ≠ "field" ∧ l ≠ "valid" ∧ l ≠ "norm")) := by
+  rw [hread]
+  by_cases h1 : f.nvdim = 1
+  · rw [if_pos h1]
+    constructor
+    · intro e; exact ⟨fun _ => e.symm, fun hh => by omega⟩
+    · intro hh; exact (hh.1 h1).symm
+  · have hnv : 1 < f.nvdim := by have := h.nv; omega
+    obtain ⟨vs, hvs, hlen, _⟩ := h.labels hnv
+    rw [if_neg h1, hvs]
+    simp only [Option.getD_some]
+    have hiff : ∀ l : String, isLabelName l = true ↔ (l ≠ "field" ∧ l ≠ "valid" ∧ l ≠ "norm") := by
+      intro l
+      simp [isLabelName, and_assoc]
+    by_cases hall : ∀ l ∈ vs, isLabelName l = true
+    · rw [if_pos hall]
+      exact ⟨fun _ => ⟨fun hh => absurd hh h1, fun _ l hl => (hiff l).mp (hall l hl)⟩, fun _ => rfl⟩
+    · rw [if_neg hall]
+      constructor
+      · intro e
+        exfalso
+        apply hall
+        exact default_labels_plain f.nvdim vs e
+      · rintro ⟨_, hh⟩
+        exfalso
+        apply hall
+        intro l hl
+        exact (hiff l).mpr (hh hnv l hl)
+
+/-- the weak well-formedness is met by the example relabelled `["field", "b"]` (the D61 class),
+and the round trip then returns the default labels -/
+example : WFc { exField with vdims := some ["field", "b"] } 2 1 2 :=
+  ⟨exField_wf.mesh, rfl, rfl, rfl, by decide, fun _ => ⟨["field", "b"], rfl, rfl, by decide⟩⟩
+
+/-! ### the text form and the side-car, exactly (D63) -/
+
+/-- **D63 as an equivalence.**  For every 3-d field (any labels), any rounding `rnd` of the text
+writer, with or without `save_subregions`: the text file `to_file` writes is read back by
+`from_file` **if and only if** no edge of the region collapses under the rounding and — when a
+side-car was written — every subregion passes the subregion setter's test on the mesh with the
+ROUNDED corners.  (The side-car holds the exact corners; so with saved subregions and geometry
+that ten digits do not hold the read fails, and only then.) -/
+theorem text_file_accepted_iff (f : Fld) (nx ny nz : Nat) (h : WFc f nx ny nz) (hinv : ∀ p ∈ f.mesh.subs, p.2.Inv)
+    (save : Bool) (rnd : Rat → Rat) :
+    (∃ f', (toFile f "txt" save rnd).bind fromFile = .ok f') ↔
+      ((∀ a, a < 3 → rnd (f.mesh.region.lo a) ≠ rnd (f.mesh.region.hi a)) ∧
+       (save = true → ∀ p ∈ f.mesh.subs,
+         T.subOk (boundsMesh (tab 3 fun a => rnd (f.mesh.region.lo a)) (tab 3 fun a => rnd (f.mesh.region.hi a)) [nx, ny, nz])
+           p.2 = true)) := by
+  have hr : repOf "txt" = .ok .txt := by decide
+  have hw : toFile f "txt" save rnd = .ok ⟨.txt, writtenGrid .txt (activeAttr f) rnd
+      { dims := [nx + 1, ny + 1, nz + 1], coords := tab 3 fun a => f.mesh.vertices.getD a [], cell := cellData f },
+      if save && !f.mesh.subs.isEmpty then some f.mesh.subs else none⟩ := by
+    unfold toFile; rw [hr, toVtk_okc f nx ny nz h]
+  rw [hw]
+  simp only [Except.bind, fromFile]
+  rw [readVtk_writtenGrid, if_pos rfl]
+  have hne : (mapGrid rnd { dims := [nx + 1, ny + 1, nz + 1], coords := tab 3 fun a => f.mesh.vertices.getD a [],
+                            cell := cellData f }).cell.isEmpty = false := by
+    rw [mapGrid_cell, List.isEmpty_map]; exact cellData_nonempty f
+  simp only [readVtk, hne, Bool.false_eq_true, if_false]
+  rw [text_read_ok_iff f nx ny nz h rnd _ (by
+    intro l hl p hp
+    split at hl
+    · injection hl with hl; subst hl; exact hinv p hp
+    · cases hl)]
+  constructor
+  · rintro ⟨a, b⟩
+    refine ⟨a, ?_⟩
+    intro hs p hp
+    have hne' : f.mesh.subs.isEmpty = false := by
+      cases hsub : f.mesh.subs with
+      | nil => rw [hsub] at hp; cases hp
+      | cons _ _ => rfl
+    exact b f.mesh.subs (by simp [hs, hne']) p hp
+  · rintro ⟨a, b⟩
+    refine ⟨a, ?_⟩
+    intro l hl p hp
+    split at hl
+    · rename_i hc
+      injection hl with hl
+      subst hl
+      have : save = true := by
+        cases save
+        · simp at hc
+        · rfl
+      exact b this p hp
+    · cases hl
+
+/-- D63's witness and its two neighbours through the equivalence: `exThird` under the rounding to
+multiples of 1/8 is read back without side-car and is not read back with it -/
+example : (((toFile exThird "txt" false rnd8).bind fromFile).toOption.isSome,
+    ((toFile exThird "txt" true rnd8).bind fromFile).toOption.isSome) = (true, false) := by decide +kernel
+
+/-- **Text form, corners that the writer keeps: no loader hypothesis.**  If the text writer's
+rounding fixes the six corner coordinates of the region (they have at most ten significant
+digits), then for every well-formed field whose subregions fit its mesh the text file is read
+back with the same corners, counts, labels and subregions (names, order, corners), every value
+rounded value-wise, every flag exact — whatever the rounding does to the inner grid coordinates. -/
+theorem text_roundtrip_fixed_corners (f : Fld) (nx ny nz : Nat) (h : WF f nx ny nz) (hsub : C14.SubInv f.mesh)
+    (save : Bool) (rnd : Rat → Rat)
+    (hfix : ∀ a, a < 3 → rnd (f.mesh.region.lo a) = f.mesh.region.lo a ∧ rnd (f.mesh.region.hi a) = f.mesh.region.hi a) :
+    ∃ v f', toFile f "txt" save rnd = .ok v ∧ fromFile v = .ok f' ∧
+      f'.mesh.region.pmin = f.mesh.region.pmin ∧ f'.mesh.region.pmax = f.mesh.region.pmax ∧ f'.mesh.n = [nx, ny, nz] ∧
+      f'.nvdim = f.nvdim ∧ f'.vdims = (if f.nvdim = 1 then none else f.vdims) ∧
+      f'.mesh.subs.map (fun p => (p.1, p.2.pmin, p.2.pmax)) =
+        (if save then f.mesh.subs else []).map (fun p => (p.1, p.2.pmin, p.2.pmax)) ∧
+      ∀ idx, inRange [nx, ny, nz] idx = true →
+        f'.data.get idx = (tab f.nvdim fun c => rnd ((f.data.get idx).getD c 0)) ∧
+        f'.valid.get idx = f.valid.get idx := by
+  obtain ⟨_, hl1, hl2, hax, _, _, _⟩ := mesh_axes f nx ny nz h
+  have e1 : (tab 3 fun a => rnd (f.mesh.region.lo a)) = f.mesh.region.pmin := by
+    symm; apply eq_tab_of_getD _ 3 _ 0 hl1
+    intro a ha; exact (hfix a ha).1.symm
+  have e2 : (tab 3 fun a => rnd (f.mesh.region.hi a)) = f.mesh.region.pmax := by
+    symm; apply eq_tab_of_getD _ 3 _ 0 hl2
+    intro a ha; exact (hfix a ha).2.symm
+  have hm1 := loadSubs_written f nx ny nz h hsub save
+  obtain ⟨v, f', a1, a2, a3, a4, a5, a6⟩ := file_roundtrip_text f nx ny nz h save rnd
+    (fun a ha => by rw [(hfix a ha).1, (hfix a ha).2]; exact (hax a ha).2) _ (by rw [e1, e2]; exact hm1)
+  refine ⟨v, f', a1, a2, by rw [a3]; rfl, by rw [a3]; rfl, by rw [a3]; rfl, a4, a5, ?_, a6⟩
+  rw [a3]
+  cases save
+  · rfl
+  · simp [List.map_map, Function.comp_def, rebuilt]
+
+/-- the hypothesis is met by the example field and the rounding to multiples of 1/8 (its corners
+are multiples of 1/2) -/
+example : ∀ a, a < 3 → rnd8 (exField.mesh.region.lo a) = exField.mesh.region.lo a ∧
+    rnd8 (exField.mesh.region.hi a) = exField.mesh.region.hi a := by
+  intro a ha
+  have : a = 0 ∨ a = 1 ∨ a = 2 := by omega
+  rcases this with rfl | rfl | rfl <;> decide +kernel
+
+/-! ### stale side-cars, exactly (D64) -/
+
+/-- **Invariant over histories**: side-car files are never empty and never removed.  Starting
+from a directory whose side-cars each hold at least one subregion (in particular the empty
+directory), after ANY session every side-car still does; and a side-car of a given name is
+absent after the session exactly when it was absent before and no call of the session was a
+successful `to_file` under that name with `save_subregions` on a mesh that has subregions. -/
+theorem sidecars_over_histories (rnd : Rat → Rat) (d : Dir) (ops : List DOp) (name : String) :
+    (CarsNonempty d → CarsNonempty (Dir.after rnd d ops)) ∧
+    (look (Dir.after rnd d ops).json name = none ↔ (look d.json name = none ∧ ∀ o ∈ ops, ¬ o.writesCar rnd name)) :=
+  ⟨cars_after rnd d ops, after_json_none_iff rnd d ops name⟩
+
+/-- **D64 as an equivalence.**  Take the empty directory, any session `before`, then a `to_file`
+of a well-formed field (subregions fitting, `xml` / `bin` / `bin8`) under `name`, then
+`from_file(name)`.  The read returns the subregions this call was asked to save (names, order,
+corners; none without `save_subregions`) **if and only if** this call wrote its side-car (saved,
+and the mesh has subregions) or no earlier call of the session wrote a side-car under that name.
+In the remaining case — an old side-car, no new one — the read fails or returns subregions of an
+earlier field. -/
+theorem stale_sidecar_iff (f : Fld) (nx ny nz : Nat) (h : WF f nx ny nz) (hsub : C14.SubInv f.mesh)
+    (rep : String) (hrep : rep = "xml" ∨ rep = "bin" ∨ rep = "bin8") (save : Bool) (rnd : Rat → Rat)
+    (before : List DOp) (name : String) :
+    (∃ f', (Dir.run rnd ⟨[], []⟩ (before ++ [.write name f rep save, .read name])).getLast? = some (.ok (some f')) ∧
+        f'.mesh.subs.map (fun p => (p.1, p.2.pmin, p.2.pmax)) =
+          (if save then f.mesh.subs else []).map (fun p => (p.1, p.2.pmin, p.2.pmax))) ↔
+      ((save = true ∧ f.mesh.subs.isEmpty = false) ∨ ∀ o ∈ before, ¬ o.writesCar rnd name) := by
+  have hcars : CarsNonempty (Dir.after rnd ⟨[], []⟩ before) := cars_after rnd _ before (by intro p hp; cases hp)
+  have hnone := after_json_none_iff rnd ⟨[], []⟩ before name
+  obtain ⟨v, _, hv, _⟩ := file_roundtrip_exact_subs f nx ny nz h hsub rep hrep save rnd
+  have hlast := read_after_history rnd ⟨[], []⟩ before [] name f rep save v hv (by intro o ho; cases ho)
+  simp only [List.nil_append] at hlast
+  rw [hlast]
+  constructor
+  · rintro ⟨f', hf', hs⟩
+    by_contra hcon
+    rw [not_or] at hcon
+    obtain ⟨c1, c2⟩ := hcon
+    have hsc : v.sidecar = none := by
+      rw [(file_written f rep save rnd v hv).2.2]
+      rw [if_neg]
+      intro hc
+      apply c1
+      simpa using hc
+    have hold : look (Dir.after rnd ⟨[], []⟩ before).json name ≠ none := by
+      intro hn
+      exact c2 (hnone.mp hn).2
+    cases hlk : look (Dir.after rnd ⟨[], []⟩ before).json name with
+    | none => exact hold hlk
+    | some sc =>
+      obtain ⟨p, hp, hp2⟩ := look_mem _ _ _ hlk
+      have hscne : sc ≠ [] := by rw [← hp2]; exact hcars p hp
+      rw [hsc, hlk] at hf'
+      simp only at hf'
+      injection hf' with hf'
+      have hgrid : v.grid.cell.isEmpty = false := by
+        have hg := toVtk_ok f nx ny nz h
+        unfold toFile at hv
+        split at hv
+        · cases hv
+        · rw [hg] at hv
+          simp only at hv
+          injection hv with hv
+          rw [← hv]
+          simp only
+          rw [writtenGrid_isEmpty]
+          rfl
+      have hread : fromCells v.grid (some sc) = .ok f' := by
+        simp only [readVtk, hgrid] at hf'
+        cases hfc : fromCells v.grid (some sc) with
+        | error e => rw [hfc] at hf'; cases hf'
+        | ok f'' =>
+          rw [hfc] at hf'
+          simp only [Except.map] at hf'
+          injection hf' with hf'
+          injection hf' with hf'
+          rw [hf']
+      have hlen := fromCells_subs_length _ _ _ hread
+      have hexp : (if save then f.mesh.subs else []).map (fun p => (p.1, p.2.pmin, p.2.pmax)) = [] := by
+        cases save with
+        | false => rfl
+        | true =>
+          have : f.mesh.subs.isEmpty = true := by
+            cases hb : f.mesh.subs.isEmpty with
+            | true => rfl
+            | false => exact absurd ⟨rfl, hb⟩ c1
+          simp [List.isEmpty_iff.mp this]
+      rw [hexp] at hs
+      have : f'.mesh.subs.length = 0 := by
+        have := congrArg List.length hs
+        simpa using this
+      rw [hlen] at this
+      exact hscne (List.length_eq_zero_iff.mp this)
+  · intro hcond
+    obtain ⟨f', hf', _, _, _, _, _, hs, _⟩ := history_roundtrip f nx ny nz h hsub rep hrep save rnd ⟨[], []⟩ before [] name
+      (by intro o ho; cases ho)
+      (by
+        rcases hcond with hc | hc
+        · exact Or.inl hc
+        · exact Or.inr (hnone.mpr ⟨rfl, hc⟩))
+    simp only [List.nil_append] at hf'
+    rw [hlast] at hf'
+    exact ⟨f', hf', hs⟩
+
+/-- both sides of the equivalence occur: after a write that saved subregion `s`, the example field
+without subregions is read back with `s` (stale), while the example field itself is read back right -/
+example : DOp.writesCar id "a.vtk" (.write "a.vtk" exField "bin" true) :=
+  ⟨rfl, rfl, rfl, (write_accepted_iff exField "bin" true id).mpr ⟨by simp, by decide, by decide⟩⟩
+
+/-! ### legacy point-data files: malformed and truncated sections -/
+
+/-- **The coordinate blocks are refused exactly when a header has no numbers after it**: the scan
+over the `X_/Y_/Z_COORDINATES` lines of ANY file succeeds iff every such line is followed by a
+numeric line (the header on the last line, or followed by a blank / alphabetic line, raises). -/
+theorem legacy_coord_blocks_iff (lines : List LLine) :
+    (∃ es, coordEntries lines = .ok es) ↔
+      ∀ i c, lines[i]? = some (.coords c) → ∃ xs, lines[i + 1]? = some (.nums xs) :=
+  coordEntries_ok_iff lines
+
+/-- a file with a broken coordinate block is refused as a whole, whatever else it holds -/
+theorem legacy_refused_on_bad_coord_block (lines : List LLine) (sc : Option (List (String × Region))) (i c : Nat)
+    (hi : lines[i]? = some (.coords c)) (hbad : ∀ xs, lines[i + 1]? ≠ some (.nums xs)) :
+    ∃ e, legacyRead lines sc = .error e := by
+  have : ¬ ∃ es, coordEntries lines = .ok es := by
+    intro hes
+    obtain ⟨xs, hxs⟩ := (coordEntries_ok_iff lines).mp hes i c hi
+    exact hbad xs hxs
+  unfold legacyRead
+  cases hce : coordEntries lines with
+  | error e => exact ⟨e, rfl⟩
+  | ok es => exact absurd ⟨es, hce⟩ this
+
+/-- **`legacy_points` with ANY data section: refused iff malformed.**  Take a file of the old
+layout (header, coordinate blocks possibly over several lines, anything quiet in between, the data
+marker) followed by arbitrary lines `body`, with any side-car that loads.  The reader looks at
+the first `N₀·N₁·N₂` lines of `body` only (fewer if the file ends earlier) and accepts the file
+**if and only if** none of them is empty / non-numeric-non-alphabetic and every numeric one holds
+as many numbers as the field has components, or one.  Too few lines, lines starting with a letter
+and anything after the last cell's line never make the read fail. -/
+theorem legacy_data_accepted_iff (pre mid body : List LLine) (N : Nat → Nat) (o c : Nat → Rat) (first : Nat → List Rat)
+    (cont : Nat → List LLine) (vec : Bool) (sidecar : Option (List (String × Region))) (m1 : Mesh)
+    (hpre : Quiet pre) (hmid : Quiet mid) (hcont : ∀ a, a < 3 → Quiet (cont a))
+    (hbody : ∀ x ∈ body, ∀ k, x ≠ .coords k)
+    (hsc : vec = false → (∀ x ∈ pre ++ (cont 0 ++ (cont 1 ++ (cont 2 ++ mid))), x ≠ .scalars) ∧ ∀ x ∈ body, x ≠ .vectors)
+    (hN : ∀ a, a < 3 → 1 ≤ N a) (hc : ∀ a, a < 3 → 0 < c a)
+    (hfirst : ∀ a, a < 3 → 1 ≤ (first a).length ∧ (first a).getD 0 0 = o a ∧
+      (1 < N a → 1 < (first a).length ∧ (first a).getD 1 0 = o a + c a) ∧ (N a = 1 → (first a).length = 1))
+    (hsub : loadSubs { region := plainRegion (tab 3 (fun a => o a - legCe N c a * (1/2)))
+                                  (tab 3 (fun a => o a - legCe N c a * (1/2) + (N a : Rat) * legCe N c a)),
+                       n := [N 0, N 1, N 2], bc := "", subs := [] } sidecar = .ok m1) :
+    (∃ f', legacyRead (legacyFileBody pre mid N first cont vec body) sidecar = .ok f') ↔
+      DataOk (if vec then 3 else 1) (natProd [N 0, N 1, N 2]) body := by
+  rw [legacyRead_body pre mid body N o c first cont vec sidecar m1 hpre hmid hcont hbody hsc hN hc hfirst hsub]
+  have hlen : (indicesF [N 0, N 1, N 2]).length = natProd [N 0, N 1, N 2] := by simp [indicesF]
+  rw [← hlen, ← fill_ok_iff (if vec then 3 else 1) (indicesF [N 0, N 1, N 2]) body
+    (NDA.const [N 0, N 1, N 2] (List.replicate (if vec then 3 else 1) 0))]
+  cases fill (if vec then 3 else 1) (indicesF [N 0, N 1, N 2]) body
+      (NDA.const [N 0, N 1, N 2] (List.replicate (if vec then 3 else 1) 0)) with
+  | error e =>
+    constructor
+    · rintro ⟨_, hh⟩; cases hh
+    · rintro ⟨_, hh⟩; cases hh
+  | ok d => exact ⟨fun _ => ⟨d, rfl⟩, fun _ => ⟨_, rfl⟩⟩
+
+/-- **What an accepted legacy file leaves in every cell**, truncated and padded sections included.
+Whenever the read of such a file succeeds: `N` cells per axis, the side-car's subregions, all
+valid, and cell `(i, j, k)` — line number `t = i + N₀·(j + N₁·k)` of the data section — holds the
+numbers of that line; a single number is broadcast to all components; a line starting with a
+letter is SKIPPED BUT COUNTED (the cell keeps its zeros and the following lines are NOT shifted);
+cells beyond the end of a truncated section keep their zeros. -/
+theorem legacy_data_values (pre mid body : List LLine) (N : Nat → Nat) (o c : Nat → Rat) (first : Nat → List Rat)
+    (cont : Nat → List LLine) (vec : Bool) (sidecar : Option (List (String × Region))) (m1 : Mesh)
+    (hpre : Quiet pre) (hmid : Quiet mid) (hcont : ∀ a, a < 3 → Quiet (cont a))
+    (hbody : ∀ x ∈ body, ∀ k, x ≠ .coords k)
+    (hsc : vec = false → (∀ x ∈ pre ++ (cont 0 ++ (cont 1 ++ (cont 2 ++ mid))), x ≠ .scalars) ∧ ∀ x ∈ body, x ≠ .vectors)
+    (hN : ∀ a, a < 3 → 1 ≤ N a) (hc : ∀ a, a < 3 → 0 < c a)
+    (hfirst : ∀ a, a < 3 → 1 ≤ (first a).length ∧ (first a).getD 0 0 = o a ∧
+      (1 < N a → 1 < (first a).length ∧ (first a).getD 1 0 = o a + c a) ∧ (N a = 1 → (first a).length = 1))
+    (hsub : loadSubs { region := plainRegion (tab 3 (fun a => o a - legCe N c a * (1/2)))
+                                  (tab 3 (fun a => o a - legCe N c a * (1/2) + (N a : Rat) * legCe N c a)),
+                       n := [N 0, N 1, N 2], bc := "", subs := [] } sidecar = .ok m1)
+    (f' : Fld) (hf' : legacyRead (legacyFileBody pre mid N first cont vec body) sidecar = .ok f') :
+    f'.mesh = m1 ∧ f'.mesh.n = [N 0, N 1, N 2] ∧ f'.nvdim = (if vec then 3 else 1) ∧
+    f'.vdims = (if vec then some ["x", "y", "z"] else none) ∧
+    ∀ idx, inRange [N 0, N 1, N 2] idx = true →
+      f'.data.get idx = cellAfter (if vec then 3 else 1) body (flatF [N 0, N 1, N 2] idx)
+        (List.replicate (if vec then 3 else 1) 0) ∧
+      f'.valid.get idx = true := by
+  rw [legacyRead_body pre mid body N o c first cont vec sidecar m1 hpre hmid hcont hbody hsc hN hc hfirst hsub] at hf'
+  obtain ⟨_, hn, _⟩ := loadSubs_geom _ _ _ hsub
+  cases hfill : fill (if vec then 3 else 1) (indicesF [N 0, N 1, N 2]) body
+      (NDA.const [N 0, N 1, N 2] (List.replicate (if vec then 3 else 1) 0)) with
+  | error e => rw [hfill] at hf'; cases hf'
+  | ok d =>
+    rw [hfill] at hf'
+    simp only at hf'
+    injection hf' with hf'
+    subst hf'
+    obtain ⟨_, s2, _⟩ := fill_spec _ _ _ _ _ (indicesF_nodup _) hfill
+    refine ⟨rfl, hn, rfl, rfl, ?_⟩
+    intro idx hi
+    refine ⟨?_, rfl⟩
+    have := s2 (flatF [N 0, N 1, N 2] idx) (by
+      have := flatF_lt _ _ hi
+      simpa [indicesF] using this)
+    rw [indicesF_getD _ _ hi] at this
+    rw [show (legacyBlank m1 vec N d).data = d from rfl, this]
+    rfl
+
+/-- a truncated vector file (3 × 1 × 2 points, four data lines, one of them a stray keyword line):
+accepted; the keyword line is counted, the last two cells keep their zeros -/
+example : ((legacyRead (legacyFileBody [.alpha, .alpha] [.alpha] (fun a => [3, 1, 2].getD a 0)
+      (fun a => [[0, 1/2, 1], [5], [-1, 1]].getD a []) (fun _ => []) true
+      [.nums [1, 0, 0], .alpha, .nums [7], .nums [4, 5, 6]]) none).toOption.map
+        fun f => (f.mesh.n, [f.data.get [0, 0, 0], f.data.get [1, 0, 0], f.data.get [2, 0, 0], f.data.get [0, 0, 1],
+                  f.data.get [1, 0, 1]])) =
+    some ([3, 1, 2], [[1, 0, 0], [0, 0, 0], [7, 7, 7], [4, 5, 6], [0, 0, 0]]) := by decide +kernel
+
+/-- the same file with a blank line, or a two-number line, among the first six lines is refused -/
+example : (legacyRead (legacyFileBody [.alpha, .alpha] [.alpha] (fun a => [3, 1, 2].getD a 0)
+      (fun a => [[0, 1/2, 1], [5], [-1, 1]].getD a []) (fun _ => []) true
+      [.nums [1, 0, 0], .junk, .nums [7], .nums [4, 5, 6]]) none).toOption = none ∧
+    (legacyRead (legacyFileBody [.alpha, .alpha] [.alpha] (fun a => [3, 1, 2].getD a 0)
+      (fun a => [[0, 1/2, 1], [5], [-1, 1]].getD a []) (fun _ => []) true
+      [.nums [1, 0, 0], .nums [1, 2], .nums [7], .nums [4, 5, 6]]) none).toOption = none := by
+  constructor <;> decide +kernel
+
+/-! ### round 6, continued: lookups for any labels, side-cars with arbitrary entries, text form
+without side-car from an error bound -/
+
+/-- **The per-label scalar arrays for any distinct labels (D61 at grid level, exactly).**  For a
+field with several components and ANY distinct labels, `GetArray(l)` of the grid is the scalar
+array of the component labelled `l` **if and only if** `l` is neither `field` nor `valid` (for
+those names it is the vector array / the flags: the component's scalar array has been replaced);
+and whenever it is, it carries at the id of every cell that component of the cell. -/
+theorem component_arrays_any_labels (f : Fld) (nx ny nz : Nat) (h : WFc f nx ny nz) (hnv : 1 < f.nvdim)
+    (vs : List String) (hvs : f.vdims = some vs) (c : Nat) (hc : c < vs.length) :
+    ∃ g, toVtk f = .ok g ∧
+      (g.arr (vs.getD c "") = some (compVArr f vs (vs.getD c "")) ↔ (vs.getD c "" ≠ "field" ∧ vs.getD c "" ≠ "valid")) ∧
+      ∀ idx, inRange [nx, ny, nz] idx = true →
+        (compVArr f vs (vs.getD c "")).tuple (flatF [nx, ny, nz] idx) = [(f.data.get idx).getD c 0] := by
+  obtain ⟨vs', hvs', _, hd⟩ := h.labels hnv
+  rw [hvs] at hvs'; cases hvs'
+  have hl : vs.getD c "" ∈ vs := by
+    rw [List.getD_eq_getElem?_getD, List.getElem?_eq_getElem hc]; simp
+  obtain ⟨g, hg, _, hgf, hgv, _⟩ := grid_any_labels f nx ny nz h
+  refine ⟨g, hg, ?_, ?_⟩
+  · constructor
+    · intro he
+      constructor
+      · intro e
+        rw [e, hgf] at he
+        injection he with he
+        have : (fieldVArr f).ncomp = (compVArr f vs "field").ncomp := by rw [he]
+        have h1 : (fieldVArr f).ncomp = f.nvdim := rfl
+        have h2 : (compVArr f vs "field").ncomp = 1 := rfl
+        omega
+      · intro e
+        rw [e, hgv] at he
+        injection he with he
+        have : (validVArr f).int = (compVArr f vs "valid").int := by rw [he]
+        cases this
+    · rintro ⟨h1, h2⟩
+      rw [toVtk_okc f nx ny nz h] at hg
+      injection hg with hg
+      subst hg
+      exact cellData_label f nx ny nz h hnv vs hvs _ hl h1 h2
+  · intro idx hi
+    rw [comp_tuple f nx ny nz h.dshape vs _ idx hi, indexOf_getD vs hd c hc]
+    rfl
+
+/-- **`vtk_lookup` for any distinct labels.**  Nothing about the labels is needed for the
+position ↔ value association: for every 3-d field as the constructor leaves it and every point
+`p` of the closed region, `point2index` accepts `p`, the grid lookup finds the cell with the
+structured id of that mesh cell, and there `field` holds the cell's vector and `valid` its flag. -/
+theorem vtk_lookup_any_labels (f : Fld) (nx ny nz : Nat) (h : WFc f nx ny nz) (p : List Rat)
+    (hp : f.mesh.region.containsExact p) :
+    ∃ g idx, toVtk f = .ok g ∧ f.mesh.point2index p = .ok idx ∧ inRange [nx, ny, nz] idx = true ∧
+      C01.inCell f.mesh idx p ∧ locate g p = some (flatF [nx, ny, nz] idx) ∧
+      (∃ a, g.arr "field" = some a ∧ a.ncomp = f.nvdim ∧
+        a.tuple (flatF [nx, ny, nz] idx) = tab f.nvdim fun c => (f.data.get idx).getD c 0) ∧
+      (∃ a, g.arr "valid" = some a ∧ a.int = true ∧
+        a.tuple (flatF [nx, ny, nz] idx) = [if f.valid.get idx then 1 else 0]) := by
+  have hw := scalarised_wf f nx ny nz h
+  obtain ⟨idx, h1, h2, h3, h4, _⟩ := vtk_lookup_full (scalarised f) nx ny nz hw _ (toVtk_ok (scalarised f) nx ny nz hw) p hp
+  obtain ⟨g, hg, _, hgf, hgv, hval⟩ := grid_any_labels f nx ny nz h
+  have hg' := hg
+  rw [toVtk_okc f nx ny nz h] at hg'
+  injection hg' with hg'
+  have hloc : locate g p = some (flatF [nx, ny, nz] idx) := by
+    rw [← hg']
+    exact h4
+  exact ⟨g, idx, hg, h1, h2, h3, hloc, ⟨_, hgf, rfl, (hval idx h2).1⟩, ⟨_, hgv, rfl, (hval idx h2).2⟩⟩
+
+/-- the hypotheses are met by the D61 example (labels `["field", "b"]`) at a point of its region:
+the cell found at `(1/2, 3, 5/4)` is cell 3 and `field` holds `(7, 1/2)` there -/
+example : ((toVtk { exField with vdims := some ["field", "b"] }).toOption.bind fun g =>
+      (locate g [1/2, 3, 5/4]).bind fun id => (g.arr "field").map fun a => (id, a.tuple id, g.cell.map fun a => a.name)) =
+    some (3, [7, 1/2], ["norm", "field", "b", "valid"]) := by decide +kernel
+
+/-- **The side-car loads exactly when every entry is a well-formed region that passes the
+setter's test** — for ANY entries (no assumption): an entry with unordered or missing corners,
+mismatching lengths or duplicate axis names refuses the whole read, as does one that does not fit
+the mesh. -/
+theorem sidecar_loads_iff_any (m : Mesh) (l : List (String × Region)) :
+    (∃ m1, loadSubs m (some l) = .ok m1) ↔ ∀ p ∈ l, p.2.Inv ∧ T.subOk m p.2 = true :=
+  loadSubs_ok_iff_general m l
+
+/-- **Text form without side-car: acceptance from the inputs.**  If the text writer's rounding has
+relative error at most `ε` and on every axis the edge is longer than `ε·(|pmin| + |pmax|)` (ten
+significant digits: regions whose edges are not ten orders of magnitude smaller than their
+offset), then for every well-formed field the text file written with `save_subregions=False` is
+read back: same counts, no subregions, corners and every value within `ε` relative, flags exact.
+No hypothesis on the result of any intermediate step. -/
+theorem text_roundtrip_no_sidecar (f : Fld) (nx ny nz : Nat) (h : WF f nx ny nz) (rnd : Rat → Rat) (ε : Rat)
+    (hε : ∀ x, |rnd x - x| ≤ ε * |x|)
+    (hedge : ∀ a, a < 3 → ε * (|f.mesh.region.lo a| + |f.mesh.region.hi a|) < f.mesh.region.hi a - f.mesh.region.lo a) :
+    ∃ v f', toFile f "txt" false rnd = .ok v ∧ fromFile v = .ok f' ∧ f'.mesh.n = [nx, ny, nz] ∧ f'.mesh.subs = [] ∧
+      (∀ a, a < 3 → |f'.mesh.region.lo a - f.mesh.region.lo a| ≤ ε * |f.mesh.region.lo a| ∧
+                    |f'.mesh.region.hi a - f.mesh.region.hi a| ≤ ε * |f.mesh.region.hi a|) ∧
+      ∀ idx, inRange [nx, ny, nz] idx = true →
+        (∀ c, c < f.nvdim → |(f'.data.get idx).getD c 0 - (f.data.get idx).getD c 0| ≤ ε * |(f.data.get idx).getD c 0|) ∧
+        f'.valid.get idx = f.valid.get idx := by
+  have hlt : ∀ a, a < 3 → rnd (f.mesh.region.lo a) < rnd (f.mesh.region.hi a) :=
+    fun a ha => rnd_keeps_order rnd ε _ _ hε (hedge a ha)
+  obtain ⟨v, f', a1, a2, a3, a4, a5⟩ := text_keeps_digits f nx ny nz h false rnd ε hε hlt _ rfl
+  refine ⟨v, f', a1, a2, a3, ?_, a4, a5⟩
+  obtain ⟨v', f'', c1, c2, c3, _⟩ := file_roundtrip_text f nx ny nz h false rnd hlt _ rfl
+  rw [a1] at c1
+  injection c1 with c1
+  subst c1
+  rw [a2] at c2
+  injection c2 with c2
+  subst c2
+  rw [c3]
+
+/-- the bound is met by the example field with an exact writer (`ε = 0`) -/
+example : ∀ a, a < 3 → (0 : Rat) * (|exField.mesh.region.lo a| + |exField.mesh.region.hi a|) <
+    exField.mesh.region.hi a - exField.mesh.region.lo a := by
+  intro a ha
+  have : a = 0 ∨ a = 1 ∨ a = 2 := by omega
+  rcases this with rfl | rfl | rfl <;> decide +kernel
 
 end DFV.C16
